@@ -1,0 +1,10 @@
+//go:build verif
+
+package handshake
+
+import "github.com/flynn/noise"
+
+// VerifHandshakeState exposes the Machine's noise.HandshakeState to the verification harness
+// (read-only observation of PeerStatic / ChannelBinding / MessageIndex, and raw ReadMessage on a
+// replayed twin Machine).
+func VerifHandshakeState(m *Machine) *noise.HandshakeState { return m.hs }
